@@ -357,12 +357,18 @@ class BaseDetector(BaseEstimator):
         if y is not None:
             y = check_series(y, allow_index_names=True)
 
+        old_X, old_y = self._X, self._y
         self._X = X.combine_first(self._X)
 
         if y is not None:
             self._y = y.combine_first(self._y)
 
-        self._update(X=X, y=y)
+        try:
+            self._update(X=X, y=y)
+        except Exception:
+            # A rejected batch must not be remembered and passed on to later updates.
+            self._X, self._y = old_X, old_y
+            raise
 
         return self
 
